@@ -28,6 +28,8 @@ static size_t vx_w; static unsigned vx_state_pushes; static uint8_t vx_pushed_st
 static void vx_push_state(uint8_t s) { vx_state_pushes++; vx_pushed_state = s; }
 #define vx_is_ws(c) ((c) == ' ' || (c) == '\t' || (c) == '\n' || (c) == '\r')
 /*@FUNC skip_space@*/
+static bool vx_other_state;
+/*@FUNC literal_step@*/
 #ifdef VX_CBMC
 static struct json_parser vx_p; static int vx_ec;
 static void setup(void)
@@ -45,5 +47,6 @@ static void setup(void)
 void h_parse_true(void) { setup(); parse_true(&vx_p, vx_buf + vx_off, &vx_ec); }
 void h_parse_false(void) { setup(); parse_false(&vx_p, vx_buf + vx_off, &vx_ec); }
 void h_parse_null(void) { setup(); parse_null(&vx_p, &vx_ec); }
+void h_literal_step(void) { setup(); __CPROVER_assume(vx_off < vx_n); vx_other_state = false; literal_step(&vx_p, &vx_ec); }
 void h_skip_space(void) { setup(); const char* p = vx_buf + vx_off; skip_space(&vx_p, &p); }
 #endif
